@@ -4,8 +4,13 @@ import ConduitModel.Driver.Prov
 /-
 Driver component `live` (C16): chain of steps, `;`-separated:
   imp <cfg> [!k] | ss <id> <pos> | st <id> <status>            (as component `import`)
-  live <cfg> <allow> <stale> <stopOk> <startOk> <reconf|-> [flip] [!k]
-      ApplyPlanLive(cfg, hash, allow): `stale` = present a wrong hash; lifecycle outcomes scripted:
+  live <cfg> <allow> <hash> <stopOk> <startOk> <reconf|-> [flip] [!k]
+  plan <cfg>                     Plan(cfg): prints the changes, keeps the plan's REAL hash for `<hash> = 2`
+  xcu <id> <plugin> <name> <settings> | xru <id> <plugin> <settings> <workers> | xpu <id> <name> <desc>
+                                 out-of-band change through the connector / processor / pipeline service
+      ApplyPlanLive(cfg, hash, allow): <hash> 0 = the hash of a plan computed just now, 1 = a bogus
+      hash, 2 = the hash kept by the last `plan` step (stale iff the plan computed now differs from it
+      in any change, config path, live-swappability or in the desired config); lifecycle outcomes scripted:
       StopAndWait / Start succeed iff 1; reconf = comma list per ReconfigureProcessor call
       (0 ok, 1 not-live-reconfigurable, 2 error); `flip` = an external Start sets the pipeline
       running between ApplyPlanLive's first status read and its re-read
@@ -16,12 +21,28 @@ open Conduit.Ctl
 
 inductive LStep where
   | p (s : PStep)
-  | live (c : PipeCfg) (allow stale : Bool) (env : LiveEnv) (k : Option Nat)
+  | live (c : PipeCfg) (allow : Bool) (sel : Nat) (env : LiveEnv) (k : Option Nat)
+  /-- `Plan(cfg)`: print the changes, remember the plan (hash) for a later `live … 2 …`. -/
+  | plan (c : PipeCfg)
+  /-- out-of-band change through a service (not through a plan): connector / processor / pipeline update. -/
+  | oob (f : Variant → Svc)
 
 def parseBool (s : String) : Option Bool := if s = "1" then some true else if s = "0" then some false else none
 
+def parseSel (s : String) : Option Nat := if s = "0" then some 0 else if s = "1" then some 1 else if s = "2" then some 2 else none
+
 def parseLStep (s : String) : Option LStep :=
   match words s with
+  | ["plan", c] => (parseCfg c).map .plan
+  | ["xcu", i, pl, n, st] => do
+    let i ← i.toNat?; let pl ← pl.toNat?; let n ← n.toNat?; let st ← st.toNat?
+    pure (.oob fun v => svcCnUpdate v i pl n st)
+  | ["xru", i, pl, st, w] => do
+    let i ← i.toNat?; let pl ← pl.toNat?; let st ← st.toNat?; let w ← parseInt w
+    pure (.oob fun v => svcPrUpdate v i pl st w)
+  | ["xpu", i, n, d] => do
+    let i ← i.toNat?; let n ← n.toNat?; let d ← d.toNat?
+    pure (.oob fun v => svcPlUpdate v i n d)
   | "live" :: c :: a :: st :: so :: sa :: rc :: rest0 => do
     let flip := rest0.head? = some "flip"
     let rest := if flip then rest0.drop 1 else rest0
@@ -30,37 +51,44 @@ def parseLStep (s : String) : Option LStep :=
       | [k] => if k.startsWith "!" then (k.drop 1).toString.toNat?.map (fun n => if n = 0 then none else some n) else none
       | _ => none
     let script ← if rc = "-" then some [] else (rc.splitOn ",").mapM String.toNat?
-    pure (.live (← parseCfg c) (← parseBool a) (← parseBool st)
+    pure (.live (← parseCfg c) (← parseBool a) (← parseSel st)
       { stopOk := ← parseBool so, startOk := ← parseBool sa, reconf := script, becomesRunning := flip } k)
   | _ => (parsePStep s).map .p
 
-def liveRun (v : Variant) : St → Nat → List LStep → List String → Option String → List String × Option String
+def liveRun (v : Variant) (kept : Option PlanView) : St → Nat → List LStep → List String → Option String → List String × Option String
   | _, _, [], outs, mon => (outs.reverse, mon)
   | s, i, .p (.env op) :: rest, outs, mon =>
     let r := exec v s op none
     let s' := { r.2 with next := idUniverse }
-    liveRun v s' (i + 1) rest ((errStr r.1 ++ "#" ++ observe s') :: outs) mon
+    liveRun v kept s' (i + 1) rest ((errStr r.1 ++ "#" ++ observe s') :: outs) mon
+  | s, i, .plan c :: rest, outs, mon =>
+    let fv := freshView v s.mem c
+    liveRun v fv s (i + 1) rest (viewStr fv :: outs) mon
+  | s, i, .oob f :: rest, outs, mon =>
+    let r := (f v).run { s with ctr := 0, failAt := none }
+    let s' := { r.2 with ctr := 0, next := idUniverse }
+    liveRun v kept s' (i + 1) rest ((errStr r.1 ++ "#" ++ observe s') :: outs) mon
   | s, i, .p (.imp c k) :: rest, outs, mon =>
     let before := showPlan v s.mem c
     let r := applyPlan v c { s with ctr := 0, failAt := k }
     let s' := { r.2 with ctr := 0, failAt := none, next := idUniverse }
     let out := errStr r.1 ++ "#" ++ before ++ "#" ++ showExport v s'.mem c.id ++ "#" ++ showPlan v s'.mem c ++ "#" ++ observe s'
-    liveRun v s' (i + 1) rest (out :: outs) mon
-  | s, i, .live c allow stale env k :: rest, outs, mon =>
-    let r := applyPlanLive v c (presentedPlan v s.mem c stale) allow env { s with ctr := 0, failAt := k }
+    liveRun v kept s' (i + 1) rest (out :: outs) mon
+  | s, i, .live c allow sel env k :: rest, outs, mon =>
+    let r := applyPlanLive v c (presentedPlan v s.mem c sel kept) allow env { s with ctr := 0, failAt := k }
     let s' := { r.2.1 with ctr := 0, failAt := none, next := idUniverse }
     let mon := match mon with
       | some m => some m
-      | none => (liveMonitor v s c allow stale env k).map fun why =>
+      | none => (liveMonitor v s c allow sel kept env k).map fun why =>
           if why = "scope-end" then why else s!"{why}!{match k with | some n => toString n | none => "-"}@{i}"
     let out := errStr r.1 ++ "#" ++ logStr r.2.2 ++ "#" ++ showExport v s'.mem c.id ++ "#" ++ observe s'
-    liveRun v s' (i + 1) rest (out :: outs) mon
+    liveRun v kept s' (i + 1) rest (out :: outs) mon
 
 def liveLine (line : String) : String :=
   match (line.splitOn ";").mapM parseLStep with
   | none => "bad-op"
   | some steps =>
-    let (outs, mon) := liveRun genVariant { St.init with next := idUniverse } 0 steps [] none
+    let (outs, mon) := liveRun genVariant none { St.init with next := idUniverse } 0 steps [] none
     " | ".intercalate outs ++
       (match mon with | none => " mon=ok" | some m => if m = "scope-end" then " mon=ok" else " mon=FAIL:" ++ m)
 
